@@ -596,7 +596,11 @@ func (c *Client) negotiateVersion(ctx context.Context) error {
 	if err := bi.Err(); err != nil {
 		return err
 	}
-	serverVersions := bi.ResponsePayload.(*payloads.DiscoverVersionsResponsePayload).ProtocolVersion
+	discovered, ok := bi.ResponsePayload.(*payloads.DiscoverVersionsResponsePayload)
+	if !ok || discovered == nil {
+		return fmt.Errorf("Unexpected response payload type %T", bi.ResponsePayload)
+	}
+	serverVersions := discovered.ProtocolVersion
 	if len(serverVersions) == 0 {
 		return errors.New("Protocol version negotiation failed. No common version found")
 	}
